@@ -1,7 +1,7 @@
 //! History-driven monitors: C03 (no hidden state), C07 (edits behave like list edits),
 //! C18 (capacity management never changes the value).
 
-use crate::battery::{basic, battery, hash_stream};
+use crate::battery::battery;
 use crate::case::Case;
 use crate::exec::guarded;
 use crate::gen;
@@ -79,40 +79,26 @@ fn capacity_differential<A: Subject + AllPairs>(ctx: &mut Ctx, a_before: &A, a_a
             return;
         }
     };
+    // visible state only: (len, bits) now, and (len, bits) after growing both (stale spare words become visible bits)
     let cmp = guarded(|| {
-        let ba = basic(a_after);
-        let bt = basic(&t);
-        let eq1 = a_after == &t;
-        let eq2 = &t == a_after;
-        let ord = a_after.cmp(&t);
-        let hs = hash_stream(a_after) == hash_stream(&t);
-        // one more operation on both: growth exposes stale spare words
+        let vis = |y: &A| (y.len(), model::to_str(&read_bits(y)));
         let grow = |y: &A| {
             let mut c = y.clone();
             let target = A::FIXED_CAP.map_or(y.len() + 70, |c| (y.len() + 70).min(c));
             c.resize(target, Bit::Zero);
-            basic(&c)
+            (c.len(), model::to_str(&read_bits(&c)))
         };
-        (ba, bt, eq1, eq2, ord, hs, grow(a_after), grow(&t))
+        (vis(a_after), vis(&t), grow(a_after), grow(&t))
     });
-    ctx.observer_calls += 12;
+    ctx.observer_calls += 4;
     match cmp {
-        Ok((ba, bt, eq1, eq2, ord, hs, ga, gt)) => {
+        Ok((va, vt, ga, gt)) => {
             let mut diffs = vec![];
-            if ba != bt {
-                diffs.push(format!("observers differ: subject {:?} vs fresh-capacity twin {:?}", ba, bt));
-            }
-            if !eq1 || !eq2 {
-                diffs.push(format!("== says {} / {}", eq1, eq2));
-            }
-            if ord != std::cmp::Ordering::Equal {
-                diffs.push(format!("cmp says {:?}", ord));
-            }
-            if !hs {
-                diffs.push("hash streams differ".to_string());
+            if va != vt {
+                diffs.push(format!("bits differ: subject {:?} vs fresh-capacity twin {:?}", va, vt));
             }
             if ga != gt {
-                diffs.push(format!("after growing both: {:?} vs {:?}", ga, gt));
+                diffs.push(format!("after growing both by 70 zero bits: {:?} vs {:?}", ga, gt));
             }
             if !diffs.is_empty() {
                 ctx.violation(
@@ -120,7 +106,7 @@ fn capacity_differential<A: Subject + AllPairs>(ctx: &mut Ctx, a_before: &A, a_a
                     sig,
                     &cs(),
                     format!(
-                        "step `{}` applied to the subject (capacity {}, heap {:?}) and to a fresh vector with the same bits gave distinguishable results: {}",
+                        "step `{}` applied to the subject (capacity {}, heap {:?}) and to a fresh vector with the same bits gave different bits: {}",
                         step.enc(),
                         a_before.capacity(),
                         a_before.is_heap(),
